@@ -1489,6 +1489,8 @@ def run(ctx):
         'SSH key equality is modelled as equality of canonical public key blobs',
         'X.509 certificates, security-key (sk-*) signatures, SSHSIG armor/base64 and file inputs are outside the model',
         'time.time is replaced inside the harness process (virtual clock) for validity-window cases',
+        'process time zones are fixed-offset POSIX TZ strings set in a subprocess per zone (no DST rules, no zoneinfo); '
+        'strptime/mktime are modelled by civil_seconds + offset (Model/Cert.v) and tied by the parse_time/time_window correspondence',
     ]
     ctx.prove()
     env = Env(ctx)
